@@ -335,8 +335,7 @@ func c08canon(c *core.Ctx, r *core.Reporter) {
 // Obligations: every function that builds a forwarding placeholder also has, for a placeholder it finds
 // already in place (a value obtained by a type test, not allocated there), a store of the creator it was
 // given into that placeholder's creator field.
-func c08refresh(c *core.Ctx, r *core.Reporter) {
-	const rule = "C08.refresh"
+func c08refresh(c *core.Ctx, r *core.Reporter, rule string) {
 	r.Rule(rule, "every function that installs a forwarding placeholder (allocates a slip.forward and stores a creator into it) also refreshes one it finds already installed: it stores the creator into the create field of a forward obtained by a type test, so a second registration of the name reaches calls compiled before the first", 1)
 	isCreate := func(a ssa.Value) (*ssa.FieldAddr, bool) {
 		fa, ok := a.(*ssa.FieldAddr)
